@@ -1,31 +1,60 @@
 """C17 - blacklist-aware genome tiling is an exact partition with contained fetch windows.
 
-Space: EVERY region [a,b) with 0<=a<b<=R, every bin size 1..R+2, fragment size in {None,0,1,2,R},
-every blacklist of <= K half-open intervals with endpoints in -1..R+1 (two intervals in both orders), on the real blacklisted_binning; plus fill_range / trim_rangelist / merge_overlapping_ranges /
-bp_chunked / blacklisted_binning_contigs on their own complete small spaces.
+Space: EVERY region [a,b) with 0<=a<b<=R, every bin size 1..R+2, fragment size in {None,0,1,2,3,R} (thorough: every
+fragment size 0..R+1 at R=8), every blacklist of <= K half-open intervals with endpoints in -1..R+1 (two intervals in
+both orders and the same interval twice) and the omitted blacklist (None), on the real blacklisted_binning; plus
+fill_range / trim_rangelist / merge_overlapping_ranges / bp_chunked / blacklisted_binning_contigs on their own complete
+small spaces:
+ * bp_chunked: every composition of a run of <= R bases into pieces, every labelling of the pieces as bin / blacklisted
+   gap, job tuples of arity 3 / 5 (with fetch window) / 6 (with a task payload), the run on one contig or split over two
+   contigs at every position, every bp_per_job 1..R+1;
+ * blacklisted_binning_contigs: two contigs, the blacklist as a BED FILE = every word over 8 records (on either contig,
+   an unknown contig, touching the contig end; so duplicated, unsorted and interleaved files occur), written plain with
+   3 columns / plain with 6 columns / space separated / gzip-compressed / not given at all, contig lengths from (name, length) pairs or
+   from the header of a BAM file, five contig whitelists (list and set), and its tiling fed through bp_chunked.
 Oracle: the property statement itself, evaluated with bitsets.
 """
+import gzip
 import itertools
 import os
+import shutil
 import tempfile
+
+from mc.bind import HarnessError
 
 ID = 'C17'
 DESIGN_REF = 'DESIGN.md section 3, C17'
-RULE = ('exhaustive product region x bin size x fragment size x blacklist (all sets of <=K intervals over '
-        '-1..R+1) on the real blacklisted_binning; a case is non-trivial when the blacklist intersects the '
-        'region and at least two bins are produced; states = distinct cases')
+RULE = ('exhaustive product region x bin size x fragment size x blacklist (None, all sets of <=K intervals over '
+        '-1..R+1, pairs in both orders, doubled intervals) on the real blacklisted_binning; a case is non-trivial when '
+        'the blacklist intersects the region and at least two bins are produced; bp_chunked: all labelled compositions x '
+        'tuple arity x contig split x bp_per_job; blacklisted_binning_contigs: contig lengths x bin size x fragment '
+        'size x BED words x file form x length resource x whitelist; states = distinct cases')
 ASSUMPTIONS = [
     'blacklist intervals are half-open [start,end) with start<end; two-interval blacklists are passed in both orders, three-interval ones sorted',
     'bin size >= 1, fragment size >= 0',
+    'a BED blacklist has one "contig start end [more columns]" record per line, whitespace separated, plain or gzip (.gz)',
+    'bp_chunked: the size clauses are only demanded for bins of a single contig (its stated input); concatenation always',
 ]
 
 
 def bounds(tier):
+    aux = ('fill_range/trim exhaustive to R; merge: <=3 intervals (with repeats) over -1..R+1 and 4 over -1..4; '
+           'bp_chunked: labelled compositions (bin/gap) x arity 3/5/6 x contig split x bp_per_job 1..Rc+1; '
+           'contigs: l1 1..8 x l2 x bin size {1,2,3,9} x fragment {None,0,2} x BED words x file form x resource x whitelist, '
+           'each tiling through bp_chunked with bp_per_job around multiples of the bin size')
     if tier == 'quick':
-        return {'R': 8, 'max_blacklist_intervals': 2, 'bin_sizes': '1..R+2', 'fragment_sizes': [None, 0, 1, 2, 8],
-                'aux': 'fill_range/trim/merge/bp_chunked exhaustive to R'}
+        return {'R': 8, 'max_blacklist_intervals': 2, 'bin_sizes': '1..R+2', 'fragment_sizes': [None, 0, 1, 2, 3, 8],
+                'blacklist_none': True, 'doubled_intervals': True, 'Rc_chunk': 8,
+                'contigs': {'l2': [1, 3], 'bed_words': 'all words <=2 over 8 records + all c1.c2.c1 words',
+                            'slices': ['file forms {3col,6col,4col space separated,gz,no path} x all words (pairs, no whitelist)',
+                                       'whitelist {None,[c2],[c1],{c1,c2},[zz]} x resource {pairs,bam} x words <=1']},
+                'aux': aux}
     return {'R': 12, 'max_blacklist_intervals': 2, 'R3': 7, 'max_blacklist_intervals_R3': 3, 'bin_sizes': '1..R+2',
-            'fragment_sizes': [None, 0, 1, 2, 'R'], 'aux': 'fill_range/trim/merge/bp_chunked exhaustive to R'}
+            'fragment_sizes': [None, 0, 1, 2, 3, 'R'], 'R_allfrag': 8, 'fragment_sizes_R_allfrag': '4..7,9 (with the rest: all of 0..R+1)',
+            'blacklist_none': True, 'doubled_intervals': True, 'Rc_chunk': 9,
+            'contigs': {'l2': [1, 3, 8], 'bed_words': 'all words <=3 over 8 records',
+                        'product': 'file form x resource x whitelist x words (full product)'},
+            'aux': aux}
 
 
 def shards(tier):
@@ -40,11 +69,19 @@ def shards(tier):
         for a in range(0, R3):
             for e in range(a + 1, R3 + 1):
                 out.append(('bb', R3, a, e, 3))
+        # the remaining fragment sizes, so that at R=8 EVERY fragment size 0..R+1 is explored
+        Rf = b['R_allfrag']
+        for a in range(0, Rf):
+            for e in range(a + 1, Rf + 1):
+                out.append(('bb', Rf, a, e, 2, [4, 5, 6, 7, 9]))
     out.append(('fill', R))
     out.append(('trim', R))
     out.append(('merge', min(R, 8)))
-    out.append(('chunk', min(R, 8)))
-    out.append(('contigs', min(R, 8)))
+    for total in range(1, b['Rc_chunk'] + 1):
+        out.append(('chunk', b['Rc_chunk'], total))
+    for l1 in range(1, 9):
+        for l2 in b['contigs']['l2']:
+            out.append(('contigs', 8, l1, l2))
     return out
 
 
@@ -62,7 +99,7 @@ def _intervals(R):
 
 
 def _frag_sizes(R):
-    return [None, 0, 1, 2, R]
+    return [None, 0, 1, 2, 3, R]
 
 
 def check_bb(a, e, bin_size, frag, blacklist, acc=None):
@@ -70,12 +107,16 @@ def check_bb(a, e, bin_size, frag, blacklist, acc=None):
     from singlecellmultiomics.bamProcessing import bamBinCounts as B
     out = []
     try:
-        res = list(B.blacklisted_binning(a, e, bin_size, blacklist=list(blacklist), fragment_size=frag))
+        if blacklist is None:
+            # the blacklist is optional: leaving it out means "nothing blacklisted"
+            res = list(B.blacklisted_binning(a, e, bin_size, fragment_size=frag))
+        else:
+            res = list(B.blacklisted_binning(a, e, bin_size, blacklist=list(blacklist), fragment_size=frag))
     except Exception as ex:
         return [(f'blacklisted_binning:exception:{type(ex).__name__}', repr(ex))], None
     region = _mask(a, e)
     black = 0
-    for s, t in blacklist:
+    for s, t in (blacklist or ()):
         black |= _mask(s, t)
     black &= region
     covered = 0
@@ -124,33 +165,59 @@ def check_bb(a, e, bin_size, frag, blacklist, acc=None):
 def run_shard(shard, tier, acc):
     kind = shard[0]
     if kind == 'bb':
-        _, R, a, e, K = shard
+        _, R, a, e, K = shard[:5]
+        frags = shard[5] if len(shard) > 5 else _frag_sizes(R)
         ivs = _intervals(R)
-        bls = [()]
+        bls = [None, ()]
         for k in range(1, K + 1):
             bls.extend(itertools.combinations(ivs, k))   # combinations of a sorted list are sorted
         # the function does not require a sorted blacklist (it merges and sorts itself): two intervals also in reverse order
         bls.extend((b, a) for a, b in itertools.combinations(ivs, 2))
+        # ... nor a duplicate-free one (a BED file may list an interval twice)
+        bls.extend((iv, iv) for iv in ivs)
         for bin_size in range(1, R + 3):
-            for frag in _frag_sizes(R):
+            for frag in frags:
                 for bl in bls:
                     viols, info = check_bb(a, e, bin_size, frag, bl)
                     case = {'fn': 'blacklisted_binning', 'start': a, 'end': e, 'bin_size': bin_size,
-                            'fragment_size': frag, 'blacklist': [list(x) for x in bl]}
+                            'fragment_size': frag, 'blacklist': None if bl is None else [list(x) for x in bl]}
                     nbins, hasblack = info if info else (0, False)
                     acc.case(case, transitions=1 + nbins, nontrivial=(hasblack and nbins >= 2),
-                             outcome=f'bins={nbins},black={hasblack}')
+                             outcome=f'bins={nbins},black={hasblack}' if bl is not None else 'blacklist-omitted')
                     for sig, d in viols:
                         acc.violation(sig, case, d)
+    elif kind == 'contigs':
+        tmp = tempfile.mkdtemp(prefix='c17_', dir='/dev/shm' if os.path.isdir('/dev/shm') else None)
+        try:
+            for case in _contig_cases(tier, *shard[1:]):
+                info = {}
+                viols = _replay_in(case, tmp, info)
+                acc.case(case, transitions=1 + info.get('bins', 0), nontrivial=info.get('black', False) and info.get('bins', 0) >= 2,
+                         outcome=f"contigs:{case['bed_form']}:{case['resource']}:wl={_wl_label(case)}:black={info.get('black')}")
+                for sig, d in viols:
+                    acc.violation(sig, case, d)
+        finally:
+            shutil.rmtree(tmp, ignore_errors=True)
     else:
-        for case in _aux_cases(kind, shard[1]):
+        for case in _aux_cases(kind, *shard[1:]):
             viols = replay(case)
-            acc.case(case, transitions=1, nontrivial=True, outcome=kind)
+            if kind == 'chunk':
+                label = f"chunk:arity={case['arity']}:gaps={case['gaps']}:two-contigs={case['split'] is not None}"
+                acc.case(case, transitions=1, nontrivial=len(case['bins']) >= 2, outcome=label)
+            else:
+                acc.case(case, transitions=1, nontrivial=True, outcome=kind)
             for sig, d in viols:
                 acc.violation(sig, case, d)
 
 
-def _aux_cases(kind, R):
+def _wl_label(case):
+    wl = case['whitelist']
+    if wl is None:
+        return 'None'
+    return ('set' if case.get('whitelist_as_set') else 'list') + '(' + ','.join(wl) + ')'
+
+
+def _aux_cases(kind, R, total=None):
     if kind == 'fill':
         for s in range(0, R + 1):
             for e in range(s, R + 1):
@@ -165,40 +232,135 @@ def _aux_cases(kind, R):
     elif kind == 'merge':
         ivs = _intervals(R)
         for k in (1, 2, 3):
-            for combo in itertools.combinations(ivs, k):
+            # with repeats: the same interval may be listed more than once
+            for combo in itertools.combinations_with_replacement(ivs, k):
                 yield {'fn': 'merge_overlapping_ranges', 'ranges': [list(x) for x in combo]}
+        # four intervals (two merges in one pass, chains needing several passes) over a smaller coordinate range
+        for combo in itertools.combinations(_intervals(3), 4):
+            yield {'fn': 'merge_overlapping_ranges', 'ranges': [list(x) for x in combo]}
     elif kind == 'chunk':
-        # every composition of total length <= R into bins (the bin lists tilings produce are runs of
-        # adjacent bins), every bp_per_job
-        for total in range(1, R + 1):
-            for cuts in range(0, 1 << (total - 1)):
-                bins, s = [], 0
-                for i in range(1, total):
-                    if (cuts >> (i - 1)) & 1:
-                        bins.append((s, i)); s = i
-                bins.append((s, total))
-                for bp in range(1, R + 2):
-                    yield {'fn': 'bp_chunked', 'bins': [list(x) for x in bins], 'bp_per_job': bp}
-    elif kind == 'contigs':
-        for l1 in range(1, R + 1, 2):
-            for l2 in (1, 3, R):
-                for bin_size in (1, 2, 3, R + 1):
-                    for frag in (None, 0, 2):
-                        for bl in ([], [('c1', 0, 1)], [('c1', 1, 3), ('c2', 0, 2)], [('c2', 2, R + 1), ('c1', -1, 2)],
-                                   [('c1', 1, 2), ('c1', 2, 3)], [('zz', 0, 5)]):
-                            for wl in (None, ['c2']):
-                                yield {'fn': 'blacklisted_binning_contigs', 'contigs': [['c1', l1], ['c2', l2]],
-                                       'bin_size': bin_size, 'fragment_size': frag,
-                                       'blacklist_bed': [list(x) for x in bl], 'whitelist': wl}
+        # every composition of a run of `total` bases into pieces, every labelling of the pieces as bin or blacklisted
+        # gap (the bin lists tilings produce are runs of adjacent bins interrupted by blacklisted intervals), every tuple
+        # arity the callers feed in ((contig,start,end) / +(fetch_start,fetch_end) / +(task payload)), the run on one
+        # contig or continued on a second contig from every position on, every bp_per_job
+        for cuts in range(0, 1 << (total - 1)):
+            pieces, s = [], 0
+            for i in range(1, total):
+                if (cuts >> (i - 1)) & 1:
+                    pieces.append((s, i)); s = i
+            pieces.append((s, total))
+            for labels in range(0, 1 << len(pieces)):       # bit set = blacklisted gap; 0 = all bins (simplest first)
+                bins = [list(pc) for j, pc in enumerate(pieces) if not (labels >> j) & 1]
+                for arity in (3, 5, 6):
+                    for split in [None] + list(range(1, len(bins))):
+                        for bp in range(1, R + 2):
+                            yield {'fn': 'bp_chunked', 'bins': bins, 'bp_per_job': bp, 'arity': arity,
+                                   'split': split, 'gaps': labels != 0}
+    else:
+        raise ValueError(kind)
+
+
+# ---- blacklisted_binning_contigs: the alphabet of BED records, file forms, whitelists, length resources
+def _bed_records(l1):
+    R = 8
+    return [('c1', 0, 1), ('c1', 1, 3), ('c1', 2, 3), ('c1', 0, 2), ('c1', l1 - 1, l1 + 1),
+            ('c2', 0, 2), ('c2', 2, R + 1), ('zz', 0, 5)]
+
+
+BED_FORMS = ['bed3', 'bed6', 'bed4sp', 'gz']
+WHITELISTS = [(None, False), (['c2'], False), (['c1'], False), (['c1', 'c2'], True), (['zz'], False)]
+BIN_SIZES_CONTIGS = (1, 2, 3, 9)
+FRAGS_CONTIGS = (None, 0, 2)
+
+
+def _contig_cases(tier, R, l1, l2):
+    recs = _bed_records(l1)
+    words = [()]
+    words += [(r,) for r in recs]
+    words += list(itertools.product(recs, repeat=2))
+    c1 = [r for r in recs if r[0] == 'c1']
+    c2 = [r for r in recs if r[0] == 'c2']
+    if tier == 'quick':
+        # a contig's records interrupted by those of another contig
+        words += [(x, y, z) for x in c1 for y in c2 for z in c1]
+    else:
+        words += list(itertools.product(recs, repeat=3))
+
+    def mk(bin_size, frag, word, form, resource, wl, as_set):
+        return {'fn': 'blacklisted_binning_contigs', 'contigs': [['c1', l1], ['c2', l2]], 'bin_size': bin_size,
+                'fragment_size': frag, 'blacklist_bed': [list(x) for x in word], 'bed_form': form,
+                'resource': resource, 'whitelist': wl, 'whitelist_as_set': as_set}
+
+    for bin_size in BIN_SIZES_CONTIGS:
+        for frag in FRAGS_CONTIGS:
+            if tier == 'quick':
+                # slice 1: reading the blacklist file - every word in every file form
+                for word in words:
+                    for form in (['nopath'] if not word else []) + BED_FORMS:
+                        yield mk(bin_size, frag, word, form, 'pairs', None, False)
+                # slice 2: choosing the contigs - every whitelist x every length resource (pairs / no whitelist is in slice 1)
+                for word in words[:1 + len(recs)]:
+                    for resource in ('pairs', 'bam'):
+                        for wl, as_set in WHITELISTS:
+                            if resource == 'pairs' and wl is None:
+                                continue
+                            yield mk(bin_size, frag, word, 'bed3' if word else 'nopath', resource, wl, as_set)
+            else:
+                for word in words:
+                    for form in (['nopath'] if not word else []) + BED_FORMS:
+                        for resource in ('pairs', 'bam'):
+                            for wl, as_set in WHITELISTS:
+                                yield mk(bin_size, frag, word, form, resource, wl, as_set)
 
 
 def replay(case):
+    if case['fn'] == 'blacklisted_binning_contigs':
+        tmp = tempfile.mkdtemp(prefix='c17_', dir='/dev/shm' if os.path.isdir('/dev/shm') else None)
+        try:
+            return _replay_in(case, tmp, {})
+        finally:
+            shutil.rmtree(tmp, ignore_errors=True)
+    return _replay_in(case, None, {})
+
+
+def _jobs(case):
+    """the job tuples of a bp_chunked case: (contig, start, end[, fetch_start, fetch_end[, payload]])"""
+    jobs = []
+    for i, (s, e) in enumerate(case['bins']):
+        split = case.get('split')
+        contig = 'c1' if split is None or i < split else 'c2'
+        arity = case.get('arity', 3)
+        if arity == 3:
+            jobs.append((contig, s, e))
+        elif arity == 5:
+            jobs.append((contig, s, e, s - 1, e + 2))      # a fetch window wider than the bin
+        else:
+            jobs.append((contig, s, e, s - 1, e + 2, {'task': i}))
+    return jobs
+
+
+def _check_chunks(site, jobs, bp, res, single_contig):
+    out = []
+    flat = [x for ch in res for x in ch]
+    if flat != jobs:
+        out.append((f'{site}:chunks-do-not-concatenate-to-input', res))
+    if single_contig:
+        for ch in res[:-1]:
+            if sum(abs(j[2] - j[1]) for j in ch) < bp:
+                out.append((f'{site}:inner-chunk-below-requested-size', res)); break
+            if len(ch) > 1 and sum(abs(j[2] - j[1]) for j in ch[:-1]) >= bp:
+                out.append((f'{site}:chunk-grown-past-requested-size', res)); break
+    return out
+
+
+def _replay_in(case, tmp, info):
     from singlecellmultiomics.bamProcessing import bamBinCounts as B
     from singlecellmultiomics.utils import binning
     fn = case['fn']
     if fn == 'blacklisted_binning':
+        bl = case['blacklist']
         viols, _ = check_bb(case['start'], case['end'], case['bin_size'], case['fragment_size'],
-                            tuple(tuple(x) for x in case['blacklist']))
+                            None if bl is None else tuple(tuple(x) for x in bl))
         return viols
     out = []
     try:
@@ -245,43 +407,87 @@ def replay(case):
             if got != want:
                 out.append(('merge_overlapping_ranges:union-changed', res))
         elif fn == 'bp_chunked':
-            bins = [('c', s, e) for s, e in case['bins']]
+            jobs = _jobs(case)
             bp = case['bp_per_job']
-            res = list(binning.bp_chunked(iter(bins), bp))
-            flat = [x for ch in res for x in ch]
-            if flat != bins:
-                out.append(('bp_chunked:chunks-do-not-concatenate-to-input', res))
-            for ch in res[:-1]:
-                if sum(abs(e - s) for _, s, e in ch) < bp:
-                    out.append(('bp_chunked:inner-chunk-below-requested-size', res)); break
-                if len(ch) > 1 and sum(abs(e - s) for _, s, e in ch[:-1]) >= bp:
-                    out.append(('bp_chunked:chunk-grown-past-requested-size', res)); break
+            res = list(binning.bp_chunked(iter(jobs), bp))
+            out.extend(_check_chunks('bp_chunked', jobs, bp, res, case.get('split') is None))
         elif fn == 'blacklisted_binning_contigs':
-            out.extend(_check_contigs(case, B))
+            out.extend(_check_contigs(case, B, binning, tmp, info))
         else:
             raise ValueError(fn)
+    except HarnessError:
+        raise
     except Exception as ex:
         out.append((f'{fn}:exception:{type(ex).__name__}', repr(ex)))
     return out
 
 
-def _check_contigs(case, B):
+_BAMS = {}
+
+
+def _bam_with_contigs(contigs, tmp):
+    """path of an alignment file without reads whose header lists the contigs (the documented length resource)"""
+    import pysam
+    key = (tmp, tuple(contigs))
+    if key not in _BAMS:
+        path = os.path.join(tmp, 'h_' + '_'.join(f'{c}-{l}' for c, l in contigs) + '.bam')
+        header = pysam.AlignmentHeader.from_dict({'HD': {'VN': '1.6', 'SO': 'coordinate'},
+                                                  'SQ': [{'SN': c, 'LN': l} for c, l in contigs]})
+        with pysam.AlignmentFile(path, 'wb', header=header):
+            pass
+        _BAMS[key] = path
+    return _BAMS[key]
+
+
+def _write_bed(bed, form, tmp):
+    """the blacklist as the BED file a user would pass: plain 3 columns, plain 6 columns (name, score, strand), 4 columns
+    separated by spaces, or gzip-compressed; 'nopath' = no blacklist file given"""
+    if form == 'nopath':
+        if bed:
+            raise HarnessError('nopath with records')
+        return None
+    lines = []
+    for i, (c, s, e) in enumerate(bed):
+        line = f'{c}\t{max(s, 0)}\t{e}'
+        if form == 'bed6':
+            line += f'\tregion{i}\t{100 + i}\t+'
+        elif form == 'bed4sp':                      # BED fields may be separated by spaces as well
+            line = f'{c} {max(s, 0)}  {e} region{i}'
+        lines.append(line + '\n')
+    if form == 'gz':
+        path = os.path.join(tmp, 'blacklist.bed.gz')
+        with gzip.open(path, 'wt') as f:
+            f.writelines(lines)
+    else:
+        path = os.path.join(tmp, 'blacklist.bed')
+        with open(path, 'w') as f:
+            f.writelines(lines)
+    return path
+
+
+def _check_contigs(case, B, binning, tmp, info):
     out = []
     contigs = [tuple(x) for x in case['contigs']]
     bed = case['blacklist_bed']
     frag = case['fragment_size']
-    path = None
-    try:
-        if bed:
-            fd, path = tempfile.mkstemp(suffix='.bed', prefix='c17_')
-            with os.fdopen(fd, 'w') as f:
-                for c, s, e in bed:
-                    f.write(f'{c}\t{max(s, 0)}\t{e}\n')
-        res = list(B.blacklisted_binning_contigs(contigs, case['bin_size'], frag, blacklist_path=path,
-                                                 contig_whitelist=case['whitelist']))
-    finally:
-        if path:
-            os.unlink(path)
+    form = case.get('bed_form', 'bed3' if bed else 'nopath')
+    path = _write_bed(bed, form, tmp)
+    resource = contigs if case.get('resource', 'pairs') == 'pairs' else _bam_with_contigs(contigs, tmp)
+    wl = case['whitelist']
+    if wl is not None and case.get('whitelist_as_set'):
+        wl = set(wl)
+    res = list(B.blacklisted_binning_contigs(resource, case['bin_size'], frag, blacklist_path=path, contig_whitelist=wl))
+    info['bins'] = len(res)
+    info['black'] = False
+    if any(len(r) != (3 if frag is None else 5) for r in res):
+        return [('blacklisted_binning_contigs:tuple-shape', res)]
+    # the tiling goes to the workers in jobs: grouped by the real bp_chunked it must still be the same tiling
+    bs = case['bin_size']
+    for bp in sorted({1, max(bs - 1, 1), bs, bs + 1, 2 * bs - 1, 2 * bs, 2 * bs + 1}):
+        chunks = list(binning.bp_chunked(iter(res), bp))
+        v = _check_chunks('contigs-then-bp_chunked', res, bp, chunks, False)
+        if v:
+            out.extend(v); break
     for c, length in contigs:
         mine = [r[1:] for r in res if r[0] == c]
         if case['whitelist'] is not None and c not in case['whitelist']:
@@ -294,6 +500,7 @@ def _check_contigs(case, B):
                 black |= _mask(s, e)
         region = _mask(0, length)
         black &= region
+        info['black'] = info['black'] or bool(black)
         cov = 0
         for r in mine:
             s, t = r[0], r[1]
